@@ -311,9 +311,11 @@ def rule_tier(ctx) -> None:
         a = c.args[0]
         ok = isinstance(a, ast.Name) and all(d.value is not None and isinstance(d.value, ast.Call) and call_tail(d.value) == "_filter_recent" for d in rd.reaching(a.id, n) if d.kind != "mutate")
         ctx.check(ok, "C11.TIER", f"{fn.qual}/exact-uses-recency", fn.loc(c), "the exact tier ranks the recency-filtered list", "the exact tier ranks a list that did not pass the recency window")
-    chosen = [d for d in rd.all_defs if d.name == "chosen" and d.value is not None]
-    ok = bool(chosen) and all(any(isinstance(x, ast.Subscript) and isinstance(x.slice, ast.Slice) and x.slice.upper is not None and src(x.slice.upper) == "clusters_top_m" and src(x.value) == "cluster_scores"
-                                  for x in ast.walk(d.value)) for d in chosen)
+    # the bound: a local read from hints["clusters_top_m"]; the ranked clusters: a list sorted in place with a key
+    top_m = {d.name for d in rd.all_defs if d.value is not None and any(const_str(z) == "clusters_top_m" for z in ast.walk(d.value))}
+    ranked = {src(c.func.value) for n in cfg.nodes for c in node_calls(n) if call_tail(c) == "sort" and kwarg(c, "key") is not None}
+    slices = [x for x in walk_no_defs(fn.node) if isinstance(x, ast.Subscript) and isinstance(x.slice, ast.Slice) and x.slice.upper is not None and src(x.slice.upper) in top_m]
+    ok = bool(slices) and all(x.slice.lower is None and src(x.value) in ranked for x in slices)
     ctx.check(ok, "C11.TIER", f"{fn.qual}/top-m-clusters", fn.loc(), "the cluster tier pools cluster_scores[:clusters_top_m]", "the cluster tier does not pool exactly the top clusters_top_m clusters")
     cs = [x for x in walk_no_defs(fn.node) if isinstance(x, ast.Call) and call_tail(x) == "sort" and src(x.func.value) == "cluster_scores"]
     parts = [src(e) for e in cs[0].keywords[0].value.body.elts] if cs and isinstance(kwarg(cs[0], "key"), ast.Lambda) and isinstance(cs[0].keywords[0].value.body, ast.Tuple) else []
@@ -484,8 +486,9 @@ def rule_perm_partition(ctx) -> None:
                   f"{why}: an index picked from beyond the cut appears twice (or one is lost), so the reranked result has a duplicate episode and can exceed k")
     sel = ctx.func("clematis.engine.stages.t2.quality_mmr:mmr_select")
     scfg = ctx.cfg(sel)
-    app = [n for n in scfg.nodes for c in node_calls(n) if call_tail(c) == "append" and src(c.func.value) == "selected"]
-    rem = [n for n in scfg.nodes for c in node_calls(n) if call_tail(c) == "remove" and src(c.func.value) == "remaining"]
+    sel_names = {r.value.id for r in walk_no_defs(sel.node) if isinstance(r, ast.Return) and isinstance(r.value, ast.Name)}
+    app = [n for n in scfg.nodes for c in node_calls(n) if call_tail(c) == "append" and src(c.func.value) in sel_names]
+    rem = [n for n in scfg.nodes for c in node_calls(n) if call_tail(c) == "remove" and isinstance(c.func.value, ast.Name) and c.func.value.id not in sel_names]
     ok = bool(app) and bool(rem) and all(any(scfg.dominates(a, r) or scfg.dominates(r, a) for r in rem) for a in app) and all(src(node_calls(a)[0].args[0]) == src(node_calls(r)[0].args[0]) for a in app for r in rem)
     ctx.check(ok, "C11.PERM", f"{sel.qual}/select-removes-picked", sel.loc(), "every selected index is removed from the candidates (no index is selected twice)", "a selected index stays among the candidates: it can be selected again")
     # hybrid: work = items[:k], tail = items[k:] with the same bound
@@ -498,13 +501,13 @@ def rule_perm_partition(ctx) -> None:
             v = n.ast.value
             if isinstance(v, ast.Call) and dotted(v.func) == "list" and v.args:
                 v = v.args[0]
-            if isinstance(v, ast.Subscript) and src(v.value) == "items" and isinstance(v.slice, ast.Slice):
-                if n.ast.targets[0].id == "work" and v.slice.lower is None and v.slice.upper is not None:
+            if isinstance(v, ast.Subscript) and isinstance(v.value, ast.Name) and v.value.id in h.params and isinstance(v.slice, ast.Slice):
+                if v.slice.lower is None and v.slice.upper is not None:
                     hi = src(v.slice.upper)
-                if n.ast.targets[0].id == "tail" and v.slice.upper is None and v.slice.lower is not None:
+                if v.slice.upper is None and v.slice.lower is not None:
                     lo = src(v.slice.lower)
-    ctx.check(lo is not None and lo == hi, "C11.PERM", f"{h.qual}/slice-partition", h.loc(), f"work = items[:{hi}] and tail = items[{lo}:] split the input at one bound",
-              f"work = items[:{hi}] but tail = items[{lo}:]: the reranked list drops or duplicates the items between the two bounds")
+    ctx.check(lo is not None and lo == hi, "C11.PERM", f"{h.qual}/slice-partition", h.loc(), f"head = items[:{hi}] and tail = items[{lo}:] split the input at one bound",
+              f"head = items[:{hi}] but tail = items[{lo}:]: the reranked list drops or duplicates the items between the two bounds")
 
 
 def rule_res(ctx) -> None:
@@ -533,7 +536,8 @@ def rule_res(ctx) -> None:
         ctx.check(bool(caps) and p is None, "C11.RES", f"{t2.qual}/residual-cap-tested", t2.loc(c), "every chosen node is followed by the residual-cap test", "the residual cap is not tested after a node is chosen",
                   ctx.path_witness(t2, p))
     bl = ctx.func("clematis.engine.stages.t2.state:build_label_map")
-    okb = "graph.nodes.get(node_id)" in src(bl.node) and "sorted(" in src(bl.node)
+    okb = any(isinstance(x, ast.Call) and isinstance(x.func, ast.Attribute) and x.func.attr == "get" and isinstance(x.func.value, ast.Attribute) and x.func.value.attr == "nodes" for x in walk_no_defs(bl.node)) \
+        and any(isinstance(x, (ast.For, ast.comprehension)) and isinstance(x.iter, ast.Call) and dotted(x.iter.func) == "sorted" for x in ast.walk(bl.node))
     ctx.check(okb, "C11.RES", f"{bl.qual}/existing-nodes-sorted", bl.loc(), "the label map enumerates existing graph nodes in sorted id order", "the label map is not built from existing nodes in sorted order")
     tl = [d for d in rd.all_defs if d.name == "t_low" and d.value is not None]
     ctx.check(bool(tl) and all(".lower()" in src(d.value) and "text" in src(d.value) for d in tl), "C11.RES", f"{t2.qual}/hit-text-lowered", t2.loc(), "labels are matched against the lower-cased hit text", "t_low is not the lower-cased hit text")
